@@ -559,6 +559,12 @@ func callSSA(i *interpreter, caller *frame, callpos token.Pos, fn *ssa.Function,
 				return r
 			}
 		}
+		if strings.HasSuffix(name, "/internal/conv.UnsafeStrToBytes") {
+			return bytesToValue([]byte(argStr(args[0])))
+		}
+		if strings.HasSuffix(name, "/internal/conv.UnsafeBytesToStr") {
+			return conv(i, types.Typ[types.String], types.NewSlice(types.Typ[types.Uint8]), args[0])
+		}
 		if fn.Blocks == nil && fn.Pkg != nil {
 			fn.Pkg.Build()
 		}
